@@ -6,6 +6,8 @@ import (
 	"bytes"
 	"io"
 
+	"gopkg.in/yaml.v3"
+
 	"github.com/cloudflare/pint/internal/comments"
 	"github.com/cloudflare/pint/internal/diags"
 )
@@ -38,4 +40,10 @@ func VerifReadContent(src []byte) VerifReaderResult {
 		AutoReset:   cr.autoReset,
 		InBegin:     cr.inBegin,
 	}
+}
+
+// VerifIsRuleNode reports whether parseRule keeps this node (its result is not "empty").
+func VerifIsRuleNode(node *yaml.Node, contentLines []string) bool {
+	_, isEmpty := parseRule(node, 0, 0, contentLines)
+	return !isEmpty
 }
